@@ -20,7 +20,12 @@ from engine.values import U
 
 def extra_shape_axioms(ctx):
     s, t, u = (z3.Const(ctx.fresh(n), Shp) for n in "stu")
+    i = z3.Const(ctx.fresh("i"), Idx)
     return [
+        # a position of the broadcast shape projects to a position of each operand
+        z3.ForAll([s, t, i], z3.Implies(z3.And(bok(s, t), inshape(i, bshape(s, t))),
+                                        z3.And(inshape(proj(i, bshape(s, t), s), s), inshape(proj(i, bshape(s, t), t), t))),
+                  patterns=[proj(i, bshape(s, t), s), proj(i, bshape(s, t), t)]),
         z3.ForAll([s, t], z3.Implies(bok(s, t), z3.And(bok(s, bshape(s, t)), bok(t, bshape(s, t)),
                                                        bshape(s, bshape(s, t)) == bshape(s, t),
                                                        bshape(t, bshape(s, t)) == bshape(s, t)))),
